@@ -1,3 +1,235 @@
+// C17 (proofs do not carry openings), C19 (responses statistically mask their secrets)
+use super::gen_issue::{holder, Issue};
+use super::gen_pok::{make_pok, Pok};
+use super::*;
+use crate::flat::*;
 use crate::H;
-pub fn c17(_h: &mut H) {}
-pub fn c19(_h: &mut H) {}
+use rug::Integer;
+use serde_json::Value;
+use sha2::{Digest, Sha256};
+
+fn hash_ints(l: &[&Integer]) -> Integer {
+    let mut s = String::new();
+    for i in l {
+        s += &i.to_string();
+    }
+    Integer::from_digits(&Sha256::digest(s.as_bytes()), rug::integer::Order::MsfBe)
+}
+
+/// every (value, randomness)-shaped object in a serialized proof
+fn commitments(v: &Value, path: String, out: &mut Vec<(String, Integer, Integer)>) {
+    match v {
+        Value::Array(a) => {
+            for (i, x) in a.iter().enumerate() {
+                commitments(x, format!("{}[{}]", path, i), out);
+            }
+        }
+        Value::Object(m) => {
+            if m.len() == 2 && m.contains_key("value") && m.contains_key("randomness") && is_int(&m["value"]) {
+                out.push((path, int_of(&m["value"]), int_of(&m["randomness"])));
+            } else if !is_int(v) {
+                for (k, x) in m {
+                    commitments(x, format!("{}.{}", path, k), out);
+                }
+            }
+        }
+        _ => {}
+    }
+}
+
+fn setup(h: &mut H) -> (Keys, Value, Vec<Issue>, Vec<Pok>) {
+    let p = params(h.suite);
+    let n = 3usize;
+    let k = keygen(h, n);
+    let (ck, _) = cpk(h, Some(&k.n_mod), n);
+    let mut issues = Vec::new();
+    let mut poks = Vec::new();
+    let subs: Vec<Vec<usize>> = if h.thorough { subsets(n) } else { vec![vec![0], vec![1], vec![0, 2], vec![0, 1, 2], vec![]] };
+    for u in subs {
+        // hidden attributes are hash outputs (>= 2^200 with overwhelming probability), as the API produces
+        let msgs = attrs(h, n);
+        if !u.is_empty() {
+            if let Some(i) = holder(h, &k, n, &u, None, msgs.clone()) {
+                issues.push(i);
+            }
+        }
+        if let Some(pk) = make_pok(h, &k, &ck, n, &u, msgs) {
+            poks.push(pk);
+        }
+    }
+    let _ = p;
+    (k, ck, issues, poks)
+}
+
+pub fn c17(h: &mut H) {
+    let (k, ck, issues, poks) = setup(h);
+    let n = &k.n_mod;
+    let b = field(&k.pk, "b");
+    let hh = field(&ck, "h");
+    let gs: Vec<Integer> = ck["g_bases"].as_array().unwrap().iter().map(int_of).collect();
+    let mut pairs: Vec<(Integer, Integer)> = k.bases.iter().map(|a| (a.clone(), b.clone())).collect();
+    pairs.extend(gs.iter().map(|g| (g.clone(), hh.clone())));
+    // attacker computations of the property on everything a prover sends
+    let mut run = |h: &mut H, what: &str, proof: &Value, secrets: &[(String, Integer)], v_sig: Option<&Integer>, id: u64| {
+        let mut cs = Vec::new();
+        commitments(proof, String::new(), &mut cs);
+        let mut lv = Vec::new();
+        leaves(proof, String::new(), &mut lv);
+        h.stat(&format!("C17.{}.commitments", what));
+        for (path, value, rnd) in &cs {
+            // (1) the embedded randomness must not open the commitment to any secret under any public base pair
+            for (g, hb) in &pairs {
+                for (sn, x) in secrets {
+                    let open = Integer::from(powm(g, x, n) * powm(hb, rnd, n)) % n;
+                    h.expect(open != *value, "C17.opening_embedded", &format!("{}: {} opens to secret {} with the randomness sent next to it", what, path, sn), &[id]);
+                }
+            }
+            // (2) no integer leaf anywhere in the proof is an opening randomness for this value
+            for (lp, leaf) in &lv {
+                if *leaf < 0 {
+                    continue;
+                }
+                for (g, hb) in &pairs {
+                    for (sn, x) in secrets.iter().take(4) {
+                        let open = Integer::from(powm(g, x, n) * powm(hb, leaf, n)) % n;
+                        h.expect(open != *value, "C17.opening_leaf", &format!("{}: {} opens to {} with field {}", what, path, sn, lp), &[id]);
+                    }
+                }
+                // (3) value * g^(-leaf) must not be v
+                if let Some(v) = v_sig {
+                    for g in gs.iter().chain(k.bases.iter()) {
+                        let rec = Integer::from(value * powm(g, &Integer::from(-leaf), n)) % n;
+                        h.expect(rec != *v, "C17.recover_v", &format!("{}: signature component v recovered as {} * g^(-{})", what, path, lp), &[id]);
+                    }
+                }
+            }
+            h.expect(*rnd == 0, "C17.randomness_sent", &format!("{}: {} carries a non-zero randomness field", what, path), &[id]);
+        }
+        // (4) two-candidate dictionary attack: from the proof alone (value + any field as randomness), can the
+        // committed attribute be told apart from a decoy?
+        for (sn, x) in secrets.iter().take(3) {
+            let decoy = Integer::from(x ^ Integer::from(1u32 << 7));
+            let mut hit_true = false;
+            let mut hit_decoy = false;
+            for (_p, value, _r) in &cs {
+                for (_lp, leaf) in &lv {
+                    if *leaf < 0 { continue; }
+                    for (g, hb) in &pairs {
+                        let hr = powm(hb, leaf, n);
+                        if Integer::from(powm(g, x, n) * &hr) % n == *value { hit_true = true; }
+                        if Integer::from(powm(g, &decoy, n) * &hr) % n == *value { hit_decoy = true; }
+                    }
+                }
+            }
+            h.expect(hit_true == hit_decoy, "C17.dictionary", &format!("{}: a two-candidate dictionary attack identifies {}", what, sn), &[id]);
+        }
+    };
+    for iss in &issues {
+        let mut secrets: Vec<(String, Integer)> = iss.hidden.iter().map(|&i| (format!("m_{}", i), iss.msgs[i].clone())).collect();
+        secrets.push(("r".into(), field(&iss.c, "randomness")));
+        let id = h.last();
+        run(h, "issuance", &iss.zk, &secrets, None, id);
+    }
+    for pk in &poks {
+        let mut secrets: Vec<(String, Integer)> = pk.hidden.iter().map(|&i| (format!("m_{}", i), pk.msgs[i].clone())).collect();
+        secrets.push(("e".into(), field(&pk.sig, "e")));
+        secrets.push(("v".into(), field(&pk.sig, "v")));
+        // w, rw, rx, re: the first four bits draws of the tape
+        for (i, nm) in ["rx", "w", "rw", "re"].iter().enumerate() {
+            if let Some((_, v)) = pk.tape.get(i) {
+                secrets.push((nm.to_string(), v.clone()));
+            }
+        }
+        let v = field(&pk.sig, "v");
+        let id = h.last();
+        run(h, "signature_proof", &pk.pok, &secrets, Some(&v), id);
+    }
+}
+
+fn two64() -> Integer {
+    Integer::from(1) << 64
+}
+
+fn far(q: &Integer, x: &Integer) -> bool {
+    Integer::from(q - x).abs() >= two64()
+}
+
+pub fn c19(h: &mut H) {
+    let (k, ck, issues, poks) = setup(h);
+    let b = field(&k.pk, "b");
+    let hh = field(&ck, "h");
+    let gs: Vec<Integer> = ck["g_bases"].as_array().unwrap().iter().map(int_of).collect();
+    let check = |h: &mut H, what: &str, proof: &Value, challenges: &[(String, Integer)], secrets: &[(String, Integer)], id: u64| {
+        let mut lv = Vec::new();
+        leaves(proof, String::new(), &mut lv);
+        // response leaves: everything except public commitments / group elements is a candidate;
+        // the property quantifies over ALL integer leaves
+        h.stat(&format!("C19.{}.proofs", what));
+        for (lp, s) in &lv {
+            if *s <= 0 { continue; }
+            for (cn, c) in challenges {
+                if *c <= 0 { continue; }
+                let q = Integer::from(s / c);
+                for (sn, x) in secrets {
+                    h.expect(far(&q, x), "C19.div_challenge", &format!("{}: floor({} / {}) is within 2^64 of secret {}", what, lp, cn, sn), &[id]);
+                }
+            }
+        }
+        for (lp, s) in &lv {
+            if *s <= 0 { continue; }
+            for (lp2, s2) in &lv {
+                if *s2 <= 0 || lp == lp2 { continue; }
+                // only quotients that can be large matter
+                if s.significant_bits() < s2.significant_bits() + 60 { continue; }
+                let q = Integer::from(s / s2);
+                for (sn, x) in secrets {
+                    h.expect(far(&q, x), "C19.div_response", &format!("{}: floor({} / {}) is within 2^64 of secret {}", what, lp, lp2, sn), &[id]);
+                }
+            }
+        }
+    };
+    for iss in &issues {
+        let n_hidden = iss.hidden.len();
+        let bases = &k.bases;
+        let mut secrets: Vec<(String, Integer)> = iss.hidden.iter().map(|&i| (format!("m_{}", i), iss.msgs[i].clone())).collect();
+        secrets.push(("r".into(), field(&iss.c, "randomness")));
+        // publicly recomputable Fiat-Shamir challenges
+        let mut ch: Vec<(String, Integer)> = Vec::new();
+        let pm = &iss.zk["proof_commited_msgs"];
+        let mut inp: Vec<Integer> = iss.hidden.iter().map(|&i| bases[i].clone()).collect();
+        inp.push(b.clone());
+        inp.push(field(&iss.c, "value"));
+        inp.push(field(pm, "t"));
+        ch.push(("c_msgs".into(), hash_ints(&inp.iter().collect::<Vec<_>>())));
+        for (j, &i) in iss.hidden.iter().enumerate() {
+            let pv = &iss.zk["proofs_commited_mi"][j];
+            ch.push((format!("c_m{}", i), hash_ints(&[&bases[i], &b, &field(&pv["commitment"], "value"), &field(&pv["value"], "t")])));
+        }
+        let pr = &iss.zk["proof_r"];
+        ch.push(("c_r".into(), hash_ints(&[&bases[0], &b, &field(&pr["commitment"], "value"), &field(&pr["value"], "t")])));
+        let _ = n_hidden;
+        let id = h.last();
+        check(h, "issuance", &iss.zk, &ch, &secrets, id);
+    }
+    for pk in &poks {
+        let mut secrets: Vec<(String, Integer)> = pk.hidden.iter().map(|&i| (format!("m_{}", i), pk.msgs[i].clone())).collect();
+        secrets.push(("e".into(), field(&pk.sig, "e")));
+        for (i, nm) in ["rx", "w", "rw", "re"].iter().enumerate() {
+            if let Some((_, v)) = pk.tape.get(i) {
+                secrets.push((nm.to_string(), v.clone()));
+            }
+        }
+        let mut ch: Vec<(String, Integer)> = vec![("c_spok".into(), field(&pk.pok["spok"], "challenge"))];
+        for (j, &i) in pk.hidden.iter().enumerate() {
+            let pv = &pk.pok["proofs_commited_mi"][j];
+            ch.push((format!("c_m{}", i), hash_ints(&[&gs[i], &hh, &field(&pv["commitment"], "value"), &field(&pv["value"], "t")])));
+        }
+        let id = h.last();
+        check(h, "signature_proof", &pk.pok, &ch, &secrets, id);
+        // two proofs from the same signature must not be linkable through a recovered e
+        let e = field(&pk.sig, "e");
+        let s4 = field(&pk.pok["spok"], "s_4");
+        let c = field(&pk.pok["spok"], "challenge");
+        h.expect(far(&Integer::from(&s4 / &c), &e), "C19.link_e", "floor(s_4 / c) recovers e: proofs from one signature are linkable", &[id]);
+    }
+}
